@@ -61,6 +61,21 @@ func valueEscapes(v ssa.Value, seen map[ssa.Value]bool) string {
 				continue // called directly
 			}
 			if !localOnlyCallees[an.CallName(&x.Call)] {
+				// handed to a function of the module that only calls it (renderToString(func(w) error)): the
+				// closure lives no longer than that call
+				if callee := x.Call.StaticCallee(); callee != nil && callee.Blocks != nil && callee.Pkg != nil && an.IsModulePkg(callee.Pkg.Pkg) && len(callee.Params) == len(x.Call.Args) {
+					kept := ""
+					for k, a := range x.Call.Args {
+						if a == v {
+							if why := valueEscapes(callee.Params[k], seen); why != "" {
+								kept = why
+							}
+						}
+					}
+					if kept == "" {
+						continue
+					}
+				}
 				return "passed to " + nonEmpty(an.CallName(&x.Call), "a dynamic call")
 			}
 		case *ssa.Defer:
